@@ -419,7 +419,7 @@ pub open spec fn copy_entry_done(e: &VfsEntry, a: PathV, b: PathV, into: bool, o
     }
 }
 impl Stdfs {
-//@ item _copy file=src/sys/fs/stdfs/mod.rs block="impl Stdfs" fn=_copy props=C09,C11,C12
+//@ item _copy file=src/sys/fs/stdfs/mod.rs block="impl Stdfs" fn=_copy props=C09,C11,C12,C06,C05
 //@ sig fn _copy(cp: sys::CopyOpts) -> RvResult<()>
 //@ rw R1 * re⟦\b(cp\.src|cp\.dst|src_root|dst_root) == (cp\.src|cp\.dst|src_root|dst_root)\b⟧ => ⟦\1.eq_abs(&\2)⟧
 //@ rw R1 + re⟦dst_root\.mash\(⟧ => ⟦dst_root.mash_rel(⟧
